@@ -86,11 +86,14 @@ PLANS = {
         "quick": [("c14_h0_t3", BOTH + ("fixed:none",), session_check.WRITE_ACTIONS, None, None, None),
                   ("c14_h1_t3", BOTH + ("fixed:none", "fixed:crlf"), session_check.WRITE_ACTIONS, None, None, None),
                   ("c14_h2_t3", ("delimited", "delimited:lf", "delimited:cr"), session_check.WRITE_ACTIONS, None, None, None),
+                  ("c14_hist2", BOTH, session_check.WRITE_ACTIONS, 4000, None, None),
                   # targets with a limited encoding: rows the CID accepts and the container refuses
                   ("c14_enc_h0", FILE_TARGETS, session_check.WRITE_ACTIONS, None, None, None),
                   ("c14_enc_h1", ("fixed@file",), session_check.WRITE_ACTIONS, None, None, None),
                   ("c14_encud_h0", ("delimited@file", "fixed@file"), session_check.WRITE_ACTIONS, None, None, None)],
         "thorough": [("c14_h0_t4", BOTH + FIXED_VARIANTS, session_check.WRITE_ACTIONS, None, None, None),
+                     ("c14_hist2", BOTH, session_check.WRITE_ACTIONS, None, None, None),
+                     ("c14_hist3", ("delimited",), session_check.WRITE_ACTIONS, 20000, None, None),
                      ("c14_h1_t4", BOTH + FIXED_VARIANTS, session_check.WRITE_ACTIONS, None, None, None),
                      ("c14_enc_h0", FILE_TARGETS + ("fixed:crlf@file", "fixed:cr@file"), session_check.WRITE_ACTIONS, None, None, None),
                      ("c14_enc_h1", FILE_TARGETS + ("fixed:crlf@file", "fixed:cr@file"), session_check.WRITE_ACTIONS, None, None, None),
